@@ -210,10 +210,12 @@ func (c *Client) Upload(_, name string, src io.Reader) error {
 	}
 
 	// If not found, insert new tag into the database.
-	// If found, update the image ID
+	// If found, update the image ID. The assignment is passed as a map: gorm
+	// skips zero-valued fields of a struct, so Assign(Tag{ImageID: ""}) would
+	// leave the previous image ID in place.
 	res := c.db.
 		Where(Tag{Repository: repo, Tag: tag}).
-		Assign(Tag{ImageID: imageID}).
+		Assign(map[string]interface{}{"image_id": imageID}).
 		FirstOrCreate(&gormTag)
 
 	if res.Error != nil {
